@@ -341,6 +341,18 @@ def features(spec):
             feats.add('delay')
         if a.get('spread'):
             feats.add('spread')
+    tpair = {}
+    for s, t, et, a in edge_list:
+        if et:
+            tpair[(s, t, et)] = tpair.get((s, t, et), 0) + 1
+    if any(v > 1 for v in tpair.values()):
+        risk.add('parallel_templated_edges')
+    okeys = {}
+    for s, t, et, a in edge_list:
+        if et:
+            okeys.setdefault(et, set()).add(frozenset(k for k in a if k not in ('weight', 'delay', 'spread')))
+    if any(len(v) > 1 for v in okeys.values()):
+        risk.add('mixed_template_overrides')
     if any(v > 1 for v in pair.values()):
         risk.add('parallel_edges')
         feats.add('parallel_edges')
@@ -439,6 +451,80 @@ def features(spec):
                     if any(driven) and not all(driven):
                         risk.add('vec_partial_input_default')
     return sorted(feats), sorted(risk)
+
+
+EDGE_SHAPES = ['lin', 'sat', 'tanh', 'two_op', 'offset']
+
+
+def add_edge_templates(spec, rnd, frac=0.6, n_templates=None, names='plain', mixed_overrides=False):
+    """Turn a random subset of the plain (template-less, undelayed) edges of `spec` into templated edges: algebraic edge
+    operators with one free input, one output and constants that are overridden per edge with unique values.
+    names='plain': edge-local variable names that occur nowhere else; 'shared': names that node operators use too."""
+    import copy
+    spec = copy.deepcopy(spec)
+    vals = Vals(rnd)
+    for o in spec['ops'].values():
+        for v, (vk, val) in o['vars'].items():
+            vals.used.add(val)
+    for nt in spec['node_types'].values():
+        for ov in nt.get('over', {}).values():
+            vals.used.update(ov.values())
+    n_templates = n_templates or rnd.choice([1, 1, 2, 3])
+    spec.setdefault('edge_types', {})
+    ets = []
+    for i in range(n_templates):
+        shape = rnd.choice(EDGE_SHAPES)
+        if names == 'plain':
+            xin, out, g, y, c = f'xe{i}', f'me{i}', f'ge{i}', f'ye{i}', f'ce{i}'
+        else:
+            xin, out, g, y, c = rnd.choice(['x', 'r', 'r_in', 's']), rnd.choice(['m', 'v', 'r_out']), rnd.choice(['g', 'k', 'w']), 'yv', 'c'
+            if out == xin:
+                out = 'm'
+        opn = f'eop{i}'
+        X, G = E.var(xin), E.var(g)
+        consts = {g: ['const', vals.new()]}
+        if shape == 'lin':
+            eqs = [['alg', out, E.mul(G, X)]]
+        elif shape == 'sat':
+            eqs = [['alg', out, E.div(E.mul(G, X), E.add(E.num(1.0), E.mul(X, X)))]]
+        elif shape == 'tanh':
+            eqs = [['alg', out, E.mul(G, ('call', 'tanh', X))]]
+        elif shape == 'offset':
+            consts[c] = ['const', vals.new()]
+            eqs = [['alg', out, E.add(E.mul(G, X), E.var(c))]]
+        if shape == 'two_op':
+            opa = f'eopa{i}'
+            spec['ops'][opa] = {'eqs': [['alg', y, E.tolist(E.mul(E.var(c), X))]],
+                                'vars': {y: ['out', 0.0], xin: ['in', 0.0], c: ['const', vals.new()]}}
+            spec['ops'][opn] = {'eqs': [['alg', out, E.tolist(E.mul(G, ('call', 'sin', E.var(y))))]],
+                                'vars': {out: ['out', 0.0], y: ['in', 0.0], g: ['const', vals.new()]}}
+            spec['edge_types'][f'et{i}'] = {'ops': [opa, opn], 'over': {}}
+            ets.append((f'et{i}', [(opa, c), (opn, g)], xin))
+        else:
+            v = {out: ['out', 0.0], xin: ['in', 0.0]}
+            v.update(consts)
+            spec['ops'][opn] = {'eqs': [[k, l, E.tolist(x)] for k, l, x in eqs], 'vars': v}
+            spec['edge_types'][f'et{i}'] = {'ops': [opn], 'over': {}}
+            ets.append((f'et{i}', [(opn, k) for k in consts], xin))
+
+    overridden = {(et, opn, k): rnd.random() < 0.8 for et, params, _ in ets for opn, k in params}
+
+    def visit(c):
+        for e in c.get('edges', []):
+            if e[2] is None and not e[3].get('delay') and rnd.random() < frac:
+                et, params, xin = rnd.choice(ets)
+                if e[0].rsplit('/', 1)[1] == xin:
+                    continue    # PyRates rejects an edge input variable named like the source variable (documented)
+                e[2] = et
+                for opn, k in params:
+                    # all edges through one template carry the same set of override keys unless mixed_overrides
+                    if (rnd.random() < 0.6) if mixed_overrides else overridden[(et, opn, k)]:
+                        e[3][f'{opn}/{k}'] = vals.new()
+        for sub in c.get('subs', {}).values():
+            visit(sub)
+
+    visit(spec['circ'])
+    return spec
 
 
 def individualize(spec, rnd, params='different', vals=None):
